@@ -24,7 +24,8 @@ func (c18) Info() core.Info {
 		Title: "Key-pinning filters read only the pinned keys or region from storage",
 		Level: "exploration",
 		Rule: "all canonical key-pinning shapes (key = l, key in (..), key ^= l, key > >= < <= l, between) alone, AND-ed with an opaque predicate on either side, and AND-ed with a second pin, plus the unsatisfiable shapes (false, disjoint equalities / prefixes / ranges), literals from {'',a,ab,b,c}, on all 128 sub-stores of {'',a,ab,abb,b,ba,c}; row drain and batch drains at B in {1,2,32}. " +
-			"Oracle on the storage call log of a standard full drain: equality/IN => only Get of pinned keys and no cursor; unsatisfiable => no call at all; prefix/range => no key before the region start and at most one key beyond its end is returned by Cursor.Next, for the region (closed reading) of at least one conjunct. Non-trivial: the store holds keys both inside and outside the pinned region. Distinct: (predicate, store, mode, B).",
+			"Oracle on the storage call log of a standard full drain: equality/IN => only Get of pinned keys and no cursor; unsatisfiable => no call at all; prefix/range => no key before the region start and at most one key beyond its end is returned by Cursor.Next, for the region (closed reading) of at least one conjunct. Non-trivial: the store holds keys both inside and outside the pinned region. Distinct: (predicate, store, mode, B)." +
+			" Every drain polls twice more after the end of the result; every pair of same-kind pins that exclude one another on their face (key sets, prefixes, closed ranges; both operand orders) is unsatisfiable.",
 		Assumptions: []string{
 			"`key > l` / `key < l` pin the closed half-line (the weakest reading of the property text); 'one key beyond the end' is counted per full drain",
 			"standard drain: Next until (nil,nil) / Batch until an empty batch, no further polls",
